@@ -55,7 +55,7 @@ def main():
     import importlib
     import coverage
     mod = importlib.import_module(f"harness.props.{prop}")
-    cases = list(mod.corpus()) + list(mod.gen_cases(random.Random(seed), "quick"))
+    cases = (list(mod.corpus()) if hasattr(mod, "corpus") else []) + list(mod.gen_cases(random.Random(seed), "quick"))
     if len(cases) > mx:
         step = len(cases) / mx
         cases = [cases[int(i * step)] for i in range(mx)]
